@@ -144,6 +144,16 @@ def run (lossy : Bool) (mem : Buf) (i : Nat) : Res := scan lossy (3 * mem.size +
 -- (theorems speak about `run` as a whole: the elaborator must not unfold thousands of loop iterations to look at its result)
 attribute [irreducible] run
 
+/-- the literals that start at `is` (just behind their opening quotes) decoded one after the other in ONE buffer, as the
+    whole-input DOM parse does with the strings and member names of a document; per literal the decoded length and the end;
+    `none` = one of them was rejected (or faulted) -/
+def runMany (lossy : Bool) : Buf → List Nat → Option (Buf × List (Nat × Nat))
+  | mem, [] => some (mem, [])
+  | mem, i :: rest =>
+    match run lossy mem i with
+    | .ok mem' cnt e => (runMany lossy mem' rest).map (fun r => (r.1, (cnt, e) :: r.2))
+    | _ => none
+
 /-- the padding `parse_with_padding` puts behind the text: `x"x` and 61 zero bytes -/
 def pad (t : Buf) : Buf := t ++ (#[120, 34, 120] ++ Array.replicate 61 (0 : UInt8))
 
